@@ -6,10 +6,12 @@
 import Atto.Lemmas.BodyReads
 namespace Atto
 
-instance (l : Nat) (c : ChunkS) : Decidable (c.WF l) := by unfold ChunkS.WF; infer_instance
-instance (l : Nat) (c : LastS) : Decidable (c.WF l) := by unfold LastS.WF; infer_instance
-instance (l : Nat) (f : FieldS) : Decidable (f.WF l) := by unfold FieldS.WF; infer_instance
-instance (l : Nat) (h : HeadS) : Decidable (h.WF l) := by unfold HeadS.WF; infer_instance
+namespace Ex
+
+instance decChunkWF (l : Nat) (c : ChunkS) : Decidable (c.WF l) := by unfold ChunkS.WF; infer_instance
+instance decLastWF (l : Nat) (c : LastS) : Decidable (c.WF l) := by unfold LastS.WF; infer_instance
+instance decFieldWF (l : Nat) (f : FieldS) : Decidable (f.WF l) := by unfold FieldS.WF; infer_instance
+instance decHeadWF (l : Nat) (h : HeadS) : Decidable (h.WF l) := by unfold HeadS.WF; infer_instance
 
 deriving instance DecidableEq for Except
 
@@ -21,8 +23,6 @@ instance decWfT : (t : Transport) → Decidable (wfT t)
     | isFalse h => isFalse (fun hw => h hw.2)
   | .err _ :: r => decWfT r
   | .pause :: r => decWfT r
-
-namespace Ex
 
 /-- `HTTP/1.1 200 OK` with `Transfer-Encoding: chunked` and a second field -/
 def headTE : HeadS :=
